@@ -363,7 +363,9 @@ def r8_every_node_written(idx, r):
     r.require(w2 is not None and conds == sorted([("not self.couplingIsActive()", False), ("writeDB", True)]), "performTightCoupling:writes-every-node", tc, node=w2,
               msg=f"with tight coupling the node must be written after the iterations for EVERY cycle (also those exempt from coupling); write happens under {conds}")
     ca = idx.method(OP, "couplingIsActive")
-    r.require("tightCoupling" in norm(ca.node), "couplingIsActive:same-setting", ca, msg="both sites must key on the tightCoupling setting")
+    ret = next((n for n in walk_local(ca.node) if isinstance(n, ast.Return)), None)
+    key = idx.fold(ca.module, ret.value.slice) if ret is not None and isinstance(ret.value, ast.Subscript) and norm(ret.value.value) == "self.cs" else None
+    r.require(key == "tightCoupling", "couplingIsActive:same-setting", ca, msg=f"both sites must key on the tightCoupling setting (operator uses {key!r})")
     wd = idx.method(DBI, "writeDBEveryNode")
     r.require(any(norm(c) == "self._db.writeToDB(self.r)" for c in iter_calls(wd.node)), "writeDBEveryNode:writes-reactor", wd, msg="the node write stores the reactor state (no label)")
     eol = idx.method(DBI, "interactEOL")
